@@ -139,7 +139,66 @@ def vcs(B):
     for i, nm in enumerate('xyz'):
         B.vc('spherical.cartesian_to_spherical_to_cartesian.' + nm, app('=', back3[i], x3[i]), nz3, functions=fs, timeout=120)
     B.take_obligations()
+    matrix_route(B, norm_axioms)
     quaternion_route(B)
+
+
+def matrix_route(B, norm_axioms):
+    """'converting any rotation to angles and back returns the same rotation': for every proper rotation matrix R with |R(2,0)| < 1,
+    Rz*Ry*Rx of rotation3DToEulerAngles(R) is R.  (eulerAnglesToRotation3D and SmartRotation3D are each proved to return Rz*Ry*Rx of
+    their angles for ALL angles, so this closes R -> angles -> R for both.)  Three kinds of VC: what the sine and cosine of each
+    returned angle are in terms of R (lemmas, libm axiom instances), then the nine entries as polynomial identities over symbols
+    standing for those sines and cosines, modulo orthonormality and det = 1."""
+    Rin = B.vec('Rin', 9)
+    r = lambda i, j: Rin[3 * i + j]
+    e = B.call('rotation3DToEulerAngles', list(Rin))
+    B.take_obligations()
+    fe = ['rotation3DToEulerAngles', 'between0And2Pi']
+
+    def dot(a, b):
+        acc = None
+        for x, y in zip(a, b):
+            acc = mul(x, y) if acc is None else add(acc, mul(x, y))
+        return acc
+    col = lambda j: [r(0, j), r(1, j), r(2, j)]
+    row = lambda i: [r(i, 0), r(i, 1), r(i, 2)]
+    orth = []
+    for i in range(3):
+        for j in range(i, 3):
+            orth.append(app('=', dot(col(i), col(j)), '1.0' if i == j else '0.0'))
+            orth.append(app('=', dot(row(i), row(j)), '1.0' if i == j else '0.0'))
+    det = add(sub(mul(r(0, 0), sub(mul(r(1, 1), r(2, 2)), mul(r(1, 2), r(2, 1)))), mul(r(0, 1), sub(mul(r(1, 0), r(2, 2)), mul(r(1, 2), r(2, 0))))),
+              mul(r(0, 2), sub(mul(r(1, 0), r(2, 1)), mul(r(1, 1), r(2, 0)))))
+    orth.append(app('=', det, '1.0'))
+    dom = [app('<', '(- 1.0)', r(2, 0)), app('<', r(2, 0), '1.0')]
+    raw = [app('f_atan2', r(2, 1), r(2, 2)), neg(app('f_asin', r(2, 0))), app('f_atan2', r(1, 0), r(0, 0))]
+    names = ('roll', 'pitch', 'yaw')
+    # (1) the normaliser keeps sine and cosine
+    for k in range(3):
+        B.vc('lemma.R_to_angles.%s_is_the_raw_angle_mod_2pi' % names[k], same_angle(e[k], raw[k]), dom + norm_axioms(raw[k]), functions=fe, timeout=120)
+    # (2) sine and cosine of the raw angles in terms of R; rho = sqrt(1 - R20^2) appears as the atan2 radius of (R22, R21) and of (R00, R10)
+    one_m = sub('1.0', mul(r(2, 0), r(2, 0)))
+    rho_x = app('f_sqrt', add(mul(r(2, 2), r(2, 2)), mul(r(2, 1), r(2, 1))))
+    rho_z = app('f_sqrt', add(mul(r(0, 0), r(0, 0)), mul(r(1, 0), r(1, 0))))
+    B.vc('lemma.R_to_angles.roll_sine_cosine', land(app('=', mul(S(raw[0]), rho_x), r(2, 1)), app('=', mul(C(raw[0]), rho_x), r(2, 2)), app('>', rho_x, '0.0'), app('=', mul(rho_x, rho_x), one_m)),
+         dom + orth, functions=fe, timeout=120)
+    B.vc('lemma.R_to_angles.yaw_sine_cosine', land(app('=', mul(S(raw[2]), rho_z), r(1, 0)), app('=', mul(C(raw[2]), rho_z), r(0, 0)), app('>', rho_z, '0.0'), app('=', mul(rho_z, rho_z), one_m)),
+         dom + orth, functions=fe, timeout=120)
+    B.vc('lemma.R_to_angles.radii_agree', app('=', rho_x, rho_z), dom + orth + [app('>', rho_x, '0.0'), app('=', mul(rho_x, rho_x), one_m), app('>', rho_z, '0.0'), app('=', mul(rho_z, rho_z), one_m)], functions=fe, timeout=120)
+    asn = app('f_asin', r(2, 0))
+    B.vc('lemma.R_to_angles.pitch_sine_cosine', land(app('=', S(raw[1]), neg(r(2, 0))), app('=', C(raw[1]), rho_x)),
+         dom + orth + [B.axiom('sin_neg', asn), app('>', rho_x, '0.0'), app('=', mul(rho_x, rho_x), one_m)], functions=fe, timeout=120)
+    # (3) the nine entries over symbols: sx rho = R21, cx rho = R22, sy = -R20, cy = rho, sz rho = R10, cz rho = R00, rho > 0, rho^2 = 1 - R20^2
+    g = {k: B.real('g_' + k) for k in ('sx', 'cx', 'sy', 'cy', 'sz', 'cz', 'rho', 'inv_rho')}
+    gfacts = dom + orth + [app('=', mul(g['sx'], g['rho']), r(2, 1)), app('=', mul(g['cx'], g['rho']), r(2, 2)), app('=', g['sy'], neg(r(2, 0))), app('=', g['cy'], g['rho']),
+                           app('=', mul(g['sz'], g['rho']), r(1, 0)), app('=', mul(g['cz'], g['rho']), r(0, 0)), app('>', g['rho'], '0.0'), app('=', mul(g['rho'], g['rho']), one_m),
+                           app('=', g['inv_rho'], app('/', '1.0', g['rho']))]      # a definition (rho > 0), lets the algebraic member cancel rho
+    env = {'sx': S(e[0]), 'cx': C(e[0]), 'sy': S(e[1]), 'cy': C(e[1]), 'sz': S(e[2]), 'cz': C(e[2])}
+    gen = [(env[k], g[k]) for k in ('sx', 'cx', 'sy', 'cy', 'sz', 'cz')]
+    Rt = symalg.rot_zyx()
+    for i in range(3):
+        for j in range(3):
+            B.vc('R_to_angles_to_R[%d,%d].RzRyRx_of_the_returned_angles_is_R' % (i, j), app('=', Rt[i][j].smt(env), r(i, j)), gfacts, functions=fe, timeout=120, subst=gen)
 
 
 def quaternion_route(B):
